@@ -44,6 +44,7 @@ def cases(tier, seed, shard, nshards):
             calls = [[rng.choice(["ret", "ret", "raise"]) for _ in range(rng.randint(1, 5 if nt == 1 else 3))] for _ in range(nt)]
             susp = {"enter": rng.choice([0, 1, 2]), "body": rng.choice([0, 1, 2]), "exit": rng.choice([0, 1, 2])}
         yield {"mode": mode, "manager": rng.choice(["generator", "generator", "class"]), "suppress": rng.random() < 0.4,
+               "direct": rng.random() < 0.25,
                "calls": calls, "susp": susp, "cancel_task": rng.randrange(nt) if rng.random() < 0.45 else None,
                "runs": DFS_LIMIT[tier] if mode == "dfs" else RANDOM_RUNS[tier], "seed": rng.randrange(1 << 30)}
 
@@ -125,9 +126,20 @@ def execute(case, choose, cancel_at=None):
             else:
                 ev.append((CTX.current, "done", cid, ("ok", r)))
 
+    async def direct_user():
+        # the very manager object that decorates the function is also used directly, once
+        try:
+            async with deco:
+                if susp["body"]:
+                    await Suspend(("direct", 0), 1)
+        except BaseException as exc:  # noqa: BLE001
+            ev.append(("direct", "direct-use-raised", type(exc).__name__))
+
     driver = Driver(choose)
     tasks = [driver.spawn(f"t{t}", caller(t, hows), cancel_at=cancel_at if t == case.get("cancel_task") else None)
              for t, hows in enumerate(case["calls"])]
+    if case.get("direct"):
+        driver.spawn("direct", direct_user())
     driver.run()
     info = {"trace": tuple(driver.trace), "choice_points": driver.choice_points, "suspensions": [t.resumes for t in tasks]}
     viols = []
@@ -196,6 +208,10 @@ def execute(case, choose, cancel_at=None):
                     viols.append(("decorator/call-outcome", f"{t.name} call {cid} ({how}, suppress={suppress}): {outcome}, expected {want_out}"))
     if case["manager"] == "generator" and len(set(gids_seen)) != len(gids_seen):
         viols.append(("decorator/generator-shared-between-calls", f"generator ids per call: {gids_seen}"))
+    if any(e[1] == "direct-use-raised" for e in ev if e[0] == "direct"):
+        viols.append(("decorator/direct-use-of-the-manager-raised", str([e for e in ev if e[0] == "direct"])))
+    if case.get("direct"):
+        info["direct"] = True
     if CTX.foreign:
         viols.append(("decorator/foreign-suspension", CTX.foreign[0]))
     return viols, info
@@ -215,7 +231,7 @@ def run_case(case, stats: Counter):
         def exe(choose, cancel_at=cancel_at):
             return execute(case, choose, cancel_at)
 
-        for res, mode, exh in explore(exe, case["mode"], case["seed"], runs, len(case["calls"])):
+        for res, mode, exh in explore(exe, case["mode"], case["seed"], runs, len(case["calls"]) + (1 if case.get("direct") else 0)):
             if res is None:
                 stats["scenarios_explored_exhaustively" if exh else "dfs_budget_hit"] += 1
                 continue
@@ -224,6 +240,8 @@ def run_case(case, stats: Counter):
             traces.add((cancel_at, info["trace"]))
             stats["executions"] += 1
             stats["choice_points"] += info["choice_points"]
+            if info.get("direct"):
+                stats["runs_with_direct_use_of_the_manager"] += 1
             if info.get("cancelled"):
                 stats["cancelled_runs"] += 1
                 stats[f"cancelled_in_{info.get('cancel_phase')}"] += 1
@@ -240,7 +258,8 @@ def run_case(case, stats: Counter):
 
 def finish(stats, tier):
     for need in ("executions", "choice_points", "cancelled_in_enter", "cancelled_in_body", "cancelled_in_exit",
-                 "manager_generator", "manager_class", "scenarios_explored_exhaustively"):
+                 "manager_generator", "manager_class", "scenarios_explored_exhaustively",
+                 "runs_with_direct_use_of_the_manager"):
         if not stats.get(need):
             return f"deciding counter {need} is zero"
     return None
